@@ -68,6 +68,16 @@ def simulator_runs(ctx, n):
         algo = rng.choice(["naive", "priority", "priority-pool", "overbook", "template"])
         tps = rng.choice([1, 3, 10, 100, 1000, 100000]) if i % 3 else rng.choice([1, 10])
         probs = rng.choice([(0.3, 0.1, 0.6), (0.0, 0.0, 1.0), (1.0, 0.0, 0.0), (0.0, 1.0, 0.0), (0.25, 0.25, 0.5)])
+        if i % 4 == 1:
+            # any two-decimal triple that sums to one the way the parameter check adds it up (left to right, in floats)
+            while True:
+                a = rng.randint(0, 100)
+                b = rng.randint(0, 100 - a)
+                probs = (a / 100, b / 100, (100 - a - b) / 100)
+                if probs[0] + probs[1] + probs[2] == 1:
+                    break
+        elif i % 4 == 3:
+            probs = (0.01, 0.29, 0.7)      # adds up to exactly 1.0 in floats only because two rounding errors cancel
         dur = rng.choice([0.0004, 0.5, 1, 3, 10]) if tps >= 1000 else rng.choice([0.5, 1, 5, 30, 60])
         params = {"duration": dur, "ticks_per_second": tps, "waiting_seconds_mean": rng.choice([0.0004, 0.2, 1.0, 5.0]),
                   "num_pipelines": rng.randint(1, 4), "num_operators": rng.choice([1, 3, 5]), "interactive_prob": probs[0], "query_prob": probs[1],
